@@ -575,7 +575,17 @@ impl SlabRouter {
     ///
     /// Returns an error if snapshot save or WAL operations fail.
     pub fn checkpoint(&self, snapshot_path: &Path) -> Result<u64, SlabRouterError> {
-        // Save snapshot first
+        // Everything the snapshot will contain must already be in the log on disk. With
+        // `Batched`/`Manual` sync a crash right after the snapshot is in place would otherwise
+        // replay a stale log prefix over the newer snapshot and revert keys to older values.
+        if let Some(wal_mutex) = &self.wal {
+            wal_mutex
+                .lock()
+                .fsync()
+                .map_err(|e| SlabRouterError::WalError(format!("Failed to sync WAL: {e}")))?;
+        }
+
+        // Save snapshot
         self.save_to_file(snapshot_path)
             .map_err(|e| SlabRouterError::WalError(format!("Failed to save snapshot: {e}")))?;
 
